@@ -129,6 +129,7 @@ type c13Cx struct {
 }
 
 func c13NewCx() *c13Cx {
+	c13ResetPorts()
 	cx := &c13Cx{Dir: vcTempDir("c13aux")}
 	tl := c13TLS()
 	must := func(err error) {
@@ -153,8 +154,60 @@ func (cx *c13Cx) Close() { os.RemoveAll(cx.Dir) }
 
 func (cx *c13Cx) f(name string) string { return filepath.Join(cx.Dir, name) }
 
-func c13TCP() string { return fmt.Sprintf("127.0.0.1:%d", vcFreeTCPPort()) }
-func c13UDP() string { return fmt.Sprintf("127.0.0.1:%d", vcFreeUDPPort()) }
+// Ports handed out for the current case: the kernel may return the same ephemeral port twice once the probing
+// socket is closed, which would make a configuration collide with itself.
+var (
+	c13PortMu  sync.Mutex
+	c13UsedTCP = map[int]bool{}
+	c13UsedUDP = map[int]bool{}
+)
+
+func c13ResetPorts() {
+	c13PortMu.Lock()
+	c13UsedTCP, c13UsedUDP = map[int]bool{}, map[int]bool{}
+	c13PortMu.Unlock()
+}
+
+func c13TCP() string {
+	c13PortMu.Lock()
+	defer c13PortMu.Unlock()
+	for {
+		p := vcFreeTCPPort()
+		if !c13UsedTCP[p] {
+			c13UsedTCP[p] = true
+			return fmt.Sprintf("127.0.0.1:%d", p)
+		}
+	}
+}
+
+func c13UDPPort() int {
+	for {
+		p := vcFreeUDPPort()
+		if !c13UsedUDP[p] {
+			c13UsedUDP[p] = true
+			return p
+		}
+	}
+}
+
+func c13UDP() string {
+	c13PortMu.Lock()
+	defer c13PortMu.Unlock()
+	return fmt.Sprintf("127.0.0.1:%d", c13UDPPort())
+}
+
+// c13EvenUDPPair returns an even port p such that p and p+1 are free and not used by the case yet.
+func c13EvenUDPPair() int {
+	c13PortMu.Lock()
+	defer c13PortMu.Unlock()
+	for {
+		p := vcFreeEvenUDPPair()
+		if !c13UsedUDP[p] && !c13UsedUDP[p+1] {
+			c13UsedUDP[p], c13UsedUDP[p+1] = true, true
+			return p
+		}
+	}
+}
 
 // ---------------------------------------------------------------- base configuration
 
@@ -162,8 +215,8 @@ func c13UDP() string { return fmt.Sprintf("127.0.0.1:%d", vcFreeUDPPort()) }
 type c13BaseVariant struct {
 	RTSPEncryption string // no | optional | strict
 	RTMPEncryption string
-	RTSPUDPBuf     bool // old sets the (deprecated but consumed) rtspUDPReadBufferSize
-	Cleaner        bool // one path has recordDeleteAfter != 0 (=> a record cleaner runs)
+	RTSPUDPBuf     bool     // old sets the (deprecated but consumed) rtspUDPReadBufferSize
+	Cleaner        bool     // one path has recordDeleteAfter != 0 (=> a record cleaner runs)
 	Off            []string // servers/services disabled in old (their enable flag), sorted
 }
 
@@ -248,10 +301,10 @@ func c13Base(cx *c13Cx, v c13BaseVariant) map[string]any {
 	set("rtspEncryption", v.RTSPEncryption)
 	set("rtspAddress", c13TCP())
 	set("rtspsAddress", c13TCP())
-	p := vcFreeEvenUDPPair()
+	p := c13EvenUDPPair()
 	set("rtpAddress", fmt.Sprintf("127.0.0.1:%d", p))
 	set("rtcpAddress", fmt.Sprintf("127.0.0.1:%d", p+1))
-	p = vcFreeEvenUDPPair()
+	p = c13EvenUDPPair()
 	set("srtpAddress", fmt.Sprintf("127.0.0.1:%d", p))
 	set("srtcpAddress", fmt.Sprintf("127.0.0.1:%d", p+1))
 	set("rtspServerKey", cx.f("k0.pem"))
@@ -472,7 +525,7 @@ func c13Alt(cx *c13Cx, fi c13FieldInfo, old map[string]any, i int, changing func
 func c13Couple(newc map[string]any, changed map[string]bool) {
 	for _, pr := range [][2]string{{"rtpAddress", "rtcpAddress"}, {"srtpAddress", "srtcpAddress"}} {
 		if changed[pr[0]] && changed[pr[1]] {
-			p := vcFreeEvenUDPPair()
+			p := c13EvenUDPPair()
 			newc[pr[0]] = fmt.Sprintf("127.0.0.1:%d", p)
 			newc[pr[1]] = fmt.Sprintf("127.0.0.1:%d", p+1)
 		}
